@@ -25,6 +25,9 @@ for log in sorted(glob.glob("/tmp/vseed-log-*.txt")):
          "no_failing_input": any("no-failing-input-found" in v[2] for v in viol),
          "runs": [f"{s[0]}/{s[1]}: {s[2]}" for s in summ],
          "how": "patch applied to a private worktree of /repo at the commit in meta.json.confirmed (tools/seedrun.sh); re-run against /repo itself by tools/seed_final.sh before the final commit"}
+    mj = json.load(open(meta))
+    if mj.get("superseded"):
+        r["superseded"] = mj["superseded"]
     res[sid] = r
 json.dump(res, open(rp, "w"), indent=1, sort_keys=True)
-print(len(res), "seed results;", sum(1 for r in res.values() if r["caught"]), "caught")
+print(len(res), "seed results;", sum(1 for r in res.values() if r["caught"]), "caught;", sum(1 for r in res.values() if not r["caught"] and r.get("superseded")), "superseded by a /repo fix;", [k for k, r in res.items() if not r["caught"] and not r.get("superseded")], "missed")
